@@ -156,7 +156,8 @@ Proof.
     - apply bind_inv in H1. destruct H1 as [s2 [x [H1 H2]]]. apply the_handle_inv in H1. subst s2.
       apply bind_inv in H2. destruct H2 as [s3 [u2 [H2 H3]]]. apply guard_inv in H2. destruct H2 as [-> _].
       apply bind_inv in H3. destruct H3 as [s4 [u3 [H3 H4]]]. apply guard_inv in H3. destruct H3 as [-> _].
-      apply ret_inv in H4. tauto.
+      apply bind_inv in H4. destruct H4 as [s5 [u4 [H4 H5]]]. apply guard_inv in H4. destruct H4 as [-> _].
+      apply ret_inv in H5. tauto.
     - apply bind_inv in H1. destruct H1 as [s2 [r [H1 H2]]]. apply lift_sum_inv in H1. destruct H1 as [-> _].
       apply ret_inv in H2. tauto. }
   subst s1. apply wr_inv in H. destruct H as [Hro ->]. cbn.
